@@ -114,3 +114,65 @@ Proof.
   specialize (H E). vm_compute in H. discriminate H.
 Qed.
 Print Assumptions C09_atomic_full_refuted_D36.
+
+(* ---- all six containers ---- *)
+From PyDBML Require Import ContainerFull.
+
+(* After ANY sequence of Database.add / Database.delete calls with ANY arguments (objects of any class, absent
+   objects, objects owned elsewhere), the full invariant holds: InvT for the tables; every listed reference, enum,
+   table group, sticky note and the project is an object of that class whose back-pointer is this database; no
+   table / reference / enum / group is listed twice. *)
+Theorem C09_database_invariant_all_histories :
+  forall d ops h db, InvDB h d db -> exists db', InvDB (fold_left (dstep d) ops h) d db'.
+Proof. exact database_invariant_history. Qed.
+Print Assumptions C09_database_invariant_all_histories.
+
+Theorem C09_full_invariant_holds_initially :
+  forall h sq dq al, (forall t tb, h_table h t = Some tb -> NoDup (names_of tb)) ->
+    InvDB (h ++ [ODatabase (mkDatabase [] [] [] [] [] [] None al sq dq)]) (length h) (mkDatabase [] [] [] [] [] [] None al sq dq).
+Proof. exact fresh_database_full. Qed.
+Print Assumptions C09_full_invariant_holds_initially.
+
+(* one add: rejected leaving the heap as it was, or the object is the new last member of the list of its class
+   (the project: the only member) and points back to the database *)
+Theorem C09_add_appends_and_attaches :
+  forall h d db o, InvDB h d db ->
+    rejected h (db_add d o h) \/
+    exists db' h' ob k, db_add d o h = (h', Ok tt) /\ InvDB h' d db' /\ nth_error h o = Some ob /\ okind ob = Some k /\
+       member h' d k o /\ (k <> KProject -> klist k db' = klist k db ++ [o]) /\ (k = KProject -> klist k db' = [o]).
+Proof. exact db_add_step. Qed.
+Print Assumptions C09_add_appends_and_attaches.
+
+(* one delete: rejected leaving the heap as it was, or exactly one member is removed (order of the others kept),
+   it points to nothing afterwards and is no longer listed *)
+Theorem C09_delete_removes_and_detaches :
+  forall h d db o, InvDB h d db -> rejected h (db_delete d o h) \/ exists k, deleted_ok k h d db (db_delete d o h).
+Proof. exact db_delete_step. Qed.
+Print Assumptions C09_delete_removes_and_detaches.
+
+(* setting a new project replaces and detaches the old one *)
+Theorem C09_new_project_replaces_old :
+  forall h d db o p0, InvDB h d db -> nth_error h o = Some (OProject p0) ->
+  exists db' h', db_add_project d o h = (h', Ok tt) /\ InvDB h' d db' /\ klist KProject db' = [o] /\ member h' d KProject o /\
+    (forall q, d_project db = Some q -> q <> o -> exists ob, nth_error h' q = Some ob /\ okind ob = Some KProject /\ oowner ob = None).
+Proof. exact add_project_step. Qed.
+Print Assumptions C09_new_project_replaces_old.
+
+(* lookup by any current name or alias of a listed table finds that table, and nothing else is found *)
+Theorem C09_name_lookup_complete :
+  forall h d db t tb k, InvDB h d db -> In t (d_tables db) -> h_table h t = Some tb -> In k (names_of tb) ->
+    dict_get k (d_table_dict db) = Some t.
+Proof. exact invariant_lookup. Qed.
+Print Assumptions C09_name_lookup_complete.
+Theorem C09_name_lookup_sound :
+  forall h d db t k, InvDB h d db -> dict_get k (d_table_dict db) = Some t ->
+    In t (d_tables db) /\ exists tb, h_table h t = Some tb /\ In k (names_of tb).
+Proof. exact invariant_lookup_sound. Qed.
+Print Assumptions C09_name_lookup_sound.
+
+(* the same for the operation scripts that the correspondence check runs against pydbml *)
+Theorem C09_script_histories :
+  forall rs sd d ops s db, slot s sd = Some d -> InvDB (st_heap s) d db -> Forall (container_op sd) ops ->
+    exists db', InvDB (st_heap (fst (run_ops rs s ops))) d db'.
+Proof. exact script_container_histories. Qed.
+Print Assumptions C09_script_histories.
